@@ -29,7 +29,10 @@ Methods == DOMAIN Table
 Memo == {m \in Methods : Table[m].memo}
 Objs == 1..NObj
 Syss == 1..NSys
-Keys == Memo \X Syss
+\* cache slots: every memoised method, plus whatever names the code declares as auxiliary outputs
+\* (a declared name that is not a memoised method is a slot nobody reads)
+AuxNames == UNION {{Aux[m][i] : i \in 1..Len(Aux[m])} : m \in DOMAIN Aux}
+Keys == (Memo \cup AuxNames) \X Syss
 
 EmptyTag == [pos |-> {}, mom |-> {}, dir |-> {}]
 Absent == [st |-> "A", tag |-> EmptyTag]
@@ -46,6 +49,8 @@ Closure(m) ==
   (IF Table[m].memo THEN {m} ELSE {})
     \cup UNION {Closure(Table[m].calls[i]) : i \in 1..Len(Table[m].calls)}
 
+TD(n) == IF n \in Methods THEN TrueDeps(n) ELSE {}
+IsCallable(n) == n \in DOMAIN CallableV /\ CallableV[n]
 AuxSet(m) == IF m \in DOMAIN Aux THEN {Aux[m][i] : i \in 1..Len(Aux[m])} ELSE {}
 AuxSeq(m) == IF m \in DOMAIN Aux THEN Aux[m] ELSE <<>>
 
@@ -122,12 +127,14 @@ DoCall(st, s, m, o) ==
        LET r == EvalBody(st1, s, m, o, 1, DirectTag(m, o))
            tagv == r.tag
            filled == IF WithAux[m] THEN {<<a, s>> : a \in AuxSet(m)} ELSE {}
+           \* what the documentation says has been delivered alongside the derivative
+           promised == IF WithAux[m] THEN {<<AuxDoc(m)[i], s>> : i \in 1..Len(AuxDoc(m))} ELSE {}
            cache2 == [r.st.cache EXCEPT ![o] =
                         TLCEval([k \in Keys |-> IF k = key THEN Entry_(tagv)
                                         ELSE IF k \in filled THEN Entry_(DirectTag(m, o))
                                         ELSE @[k]])]
            st2 == [r.st EXCEPT !.cache = cache2,
-                               !.visited = @ \cup {key} \cup filled,
+                               !.visited = @ \cup {key} \cup promised,
                                !.counts[cg[o]][key] = @ + 1,
                                !.evals[s] = IF Table[m].fn = "" THEN @
                                             ELSE [@ EXCEPT ![Table[m].fn] = @ + 1]]
@@ -176,7 +183,7 @@ Assign(o, v) ==
      ELSE /\ ver' = [ver EXCEPT ![o][v] = nextver]
           /\ nextver' = nextver + 1
           /\ cache' = [cache EXCEPT ![o] = TLCEval([k \in Keys |-> IF k \in deps[grp[o]][v] THEN NoneV ELSE @[k]])]
-          /\ known' = [known EXCEPT ![o] = {k \in @ : v \notin TrueDeps(k[1])}]
+          /\ known' = [known EXCEPT ![o] = {k \in @ : v \notin TD(k[1])}]
           /\ last' = [op |-> "assign", o |-> o, v |-> v]
   /\ UNCHANGED <<live, ro, grp, deps, cg, counts, nextgrp, nextcg>>
 
@@ -203,7 +210,7 @@ Pickle(o) ==
        /\ ro' = [ro EXCEPT ![n] = ro[o]]
        \* callable cached values are dropped by __getstate__
        /\ cache' = [cache EXCEPT ![n] =
-                      TLCEval([k \in Keys |-> IF cache[o][k].st = "E" /\ CallableV[k[1]]
+                      TLCEval([k \in Keys |-> IF cache[o][k].st = "E" /\ IsCallable(k[1])
                                       THEN Absent ELSE cache[o][k]])]
        /\ grp' = [grp EXCEPT ![n] = nextgrp]
        /\ deps' = [deps EXCEPT ![nextgrp] = deps[grp[o]]]  \* deep copy
@@ -211,7 +218,7 @@ Pickle(o) ==
        /\ cg' = [cg EXCEPT ![n] = nextcg]
        /\ counts' = [counts EXCEPT ![nextcg] = counts[cg[o]]]
        /\ nextcg' = nextcg + 1
-       /\ known' = [known EXCEPT ![n] = {k \in known[o] : ~CallableV[k[1]]}]
+       /\ known' = [known EXCEPT ![n] = {k \in known[o] : ~IsCallable(k[1])}]
        /\ last' = [op |-> "pickle", o |-> o, n |-> n]
   /\ UNCHANGED nextver
 
